@@ -396,7 +396,9 @@ def build(sid, a, ab, fi, b, extra=None):
     F.append(B)
     F.append(("sleep", 0))         # a third, trivial wait: F must get through it undisturbed
     # ------------------------------------------------------------------ driver M
-    M.append(("spawn", "Z", [("sleep", 15)]))
+    # shadow sleeper Z: a LIVE timer just before the stale ones (tick 15).  In late-wake mode (loop wakes 2 ms late) Z's timer
+    # and the stale timer expire in the same timer phase, so the stale one is judged there and not dropped by the poll phase
+    M.append(("spawn", "Z", [("sleep", 14)]))
     if ab == "immediate":
         M.append(("give", "cX", "vx"))      # cX has capacity 1: the other clause is ready before F starts
     M.append(("spawn", "F", F))
